@@ -68,6 +68,9 @@ func c10Roots() []c10Root {
 		{name: "NewContextWithContext(ctx)", mk: func() *plush.Context {
 			return plush.NewContextWithContext(context.WithValue(context.Background(), wk{}, 9))
 		}},
+		{name: "NewContextWithContext(ctx carrying the string key \"wrapped\")", mk: func() *plush.Context {
+			return plush.NewContextWithContext(context.WithValue(context.Background(), "wrapped", 7))
+		}},
 	}
 	for _, d := range []map[string]interface{}{
 		{},
@@ -153,6 +156,12 @@ func c10Drive(b *core.B, root c10Root, hist []c10Op, builtin uintptr, checkEvery
 						b.ViolateIn("wrong-has|"+k, desc(), fmt.Sprintf("after step %d: c%d.Has(%q) = %v but Value is %s", step+1, j, k, has, want))
 						return
 					}
+				}
+				// a name found only in the wrapped context.Context was never Set: what Value gives for
+				// it is not modelled, but Has must agree with it on every context of the tree
+				if has, val := impl[j].Has("wrapped"), impl[j].Value("wrapped"); has != (val != nil) {
+					b.ViolateIn("wrong-has|wrapped-context-key", desc(), fmt.Sprintf("after step %d: c%d.Has(\"wrapped\") = %v but Value(\"wrapped\") = %v", step+1, j, has, val))
+					return
 				}
 				_ = impl[j].Value(5) // non-string key: no-panic monitor only
 			}
@@ -307,7 +316,7 @@ func init() {
 	core.Register(&core.Prop{
 		ID:         "C10",
 		Level:      "exploration",
-		Rule:       "operations New(i) (at most 4 live contexts) and Set(i, k, v) with k in {a, b, len (a built-in helper's name)} and v in {1, 2, nil}, from 8 kinds of root (NewContext, NewContextWithContext, NewContextWith over 6 data maps incl. user values and a user nil under the built-in's name); every history of length 1..5 (quick) / 1..6 (thorough) is enumerated without state merging and re-driven on fresh real contexts; after its last operation Value(k) and Has(k) of every live context for k in {a, b, len, a never-set key} are compared with the chain-of-scopes reference model (all prefixes are histories of their own, so every intermediate state is checked too); plus 10k (100k) random histories of length 200 on up to 8 contexts checked after every operation; plus 64 (4000) histories on chains of 20-90 nested scopes with Sets on ancestors before and after their descendants exist. All histories are distinct by construction.",
+		Rule:       "operations New(i) (at most 4 live contexts) and Set(i, k, v) with k in {a, b, len (a built-in helper's name)} and v in {1, 2, nil}, from 9 kinds of root (NewContext, NewContextWithContext with and without a string key in the wrapped context, NewContextWith over 6 data maps incl. user values and a user nil under the built-in's name); every history of length 1..5 (quick) / 1..6 (thorough) is enumerated without state merging and re-driven on fresh real contexts; after its last operation Value(k) and Has(k) of every live context for k in {a, b, len, a never-set key} are compared with the chain-of-scopes reference model (all prefixes are histories of their own, so every intermediate state is checked too); plus 10k (100k) random histories of length 200 on up to 8 contexts checked after every operation; plus 64 (4000) histories on chains of 20-90 nested scopes with Sets on ancestors before and after their descendants exist. All histories are distinct by construction.",
 		Assume:     []string{"keys reachable only through a wrapped context.Context are not compared", "the caller's map passed to NewContextWith is not inspected"},
 		Batches:    batchesQT(32, 128),
 		Run:        c10Run,
